@@ -57,6 +57,7 @@ inductive Val where
   | str (s : List Nat)      -- a janet string
   | bool (b : Bool)
   | nil
+  | bytes (bs : List Nat)   -- a buffer (result of int/to-bytes)
   | unspec                  -- result depends on link order (primitive order of s64 against u64)
   deriving DecidableEq, Repr
 
@@ -424,7 +425,7 @@ def bitop32 (unsigned : Bool) (oper : String) (b1 b2 : Nat) : Res Val :=
 
 /-- `janet_compare` restricted to the value kinds considered (`none` = depends on link order) -/
 def typeRank : Val → Nat
-  | .num _ => 0 | .nil => 1 | .bool _ => 2 | .str _ => 4 | .s64 _ => 14 | .u64 _ => 14 | .unspec => 15
+  | .num _ => 0 | .nil => 1 | .bool _ => 2 | .str _ => 4 | .bytes _ => 11 | .s64 _ => 14 | .u64 _ => 14 | .unspec => 15
 
 def strCompare : List Nat → List Nat → Int
   | [], [] => 0
@@ -548,8 +549,26 @@ def comparatorLoop (step : Val → Val → Res Val) (invert : Bool) : Val → Li
     | .err e => .err e
     | .ub => .ub
 
+/-- `int/to-bytes x :le`: the 8 bytes of the box (memcpy on a little-endian machine), least significant first -/
+def toBytesLE (v : Int) : List Nat := (List.range 8).map (fun i => ((wrapU v) / 256 ^ i % 256).toNat)
+
+/-- value of a little-endian byte string -/
+def ofBytesLE : List Nat → Nat
+  | [] => 0
+  | b :: rest => b + 256 * ofBytesLE rest
+
 def evalFn (c : Cfg) (N : NumOps) (fn : String) (args : List Val) : Res Val :=
   match fn, args with
+  | "int/to-bytes-le", [x] =>
+    (match x with
+     | .s64 v => .ok (.bytes (toBytesLE v))
+     | .u64 v => .ok (.bytes (toBytesLE v))
+     | _ => .err .tobytestype)
+  | "int/to-bytes-be", [x] =>
+    (match x with
+     | .s64 v => .ok (.bytes (toBytesLE v).reverse)
+     | .u64 v => .ok (.bytes (toBytesLE v).reverse)
+     | _ => .err .tobytestype)
   | "compare", [x, y] => polyCompare c x y
   | "cmp", [x, y] => (match janetCompare x y with | some r => .ok (Val.ofInt r) | none => .ok .unspec)
   | "bnot", [x] => vmBnot x
